@@ -154,6 +154,17 @@ func (e *TaskExecutor) validatedTxSenderMethodAndArgs(
 		return nil, "", nil, err
 	}
 
+	if e.Chaincode.isMethodDisabled(method) {
+		err := fmt.Errorf(
+			"failed to parse chaincode method '%s' for task %s: method '%s' not found",
+			task.GetMethod(),
+			task.GetId(),
+			task.GetMethod(),
+		)
+		span.SetStatus(codes.Error, err.Error())
+		return nil, "", nil, err
+	}
+
 	span.AddEvent("validating and extracting invocation context")
 	senderAddress, invocationArgs, nonce, err := e.Chaincode.validateAndExtractInvocationContext(
 		stub,
